@@ -635,7 +635,14 @@ static void SwitchTo_SX20(void) {
     ASSUMERecCnt = ASSUMESX20Count;
 }
 
+static void InitCode_SX20(void) {
+    Reg_FSR    = 0;
+    Reg_STATUS = 0;
+}
+
 void codesx20_init(void) {
+    AddInitPassProc(InitCode_SX20);
+
     CPUSX20 = AddCPU("SX20", SwitchTo_SX20);
     CPUSX28 = AddCPU("SX28", SwitchTo_SX20);
 }
